@@ -13,7 +13,7 @@ AGGS = [{"al": "c", "fn": "count_star", "arg": {"k": "star"}, "p": 0}, {"al": "i
 SEL = "count(*) AS c, collect(id) AS ids, sum(v) AS s"
 
 
-def mk(cols, tuples, carrier, n, fnkey, rng):
+def mk(cols, tuples, carrier, n, fnkey, rng, aliases=()):
     """cols: grouping column names; tuples: per row tuple of values (python values / MISSING)"""
     rows = []
     for i, t in enumerate(tuples):
@@ -28,6 +28,8 @@ def mk(cols, tuples, carrier, n, fnkey, rng):
             f = fnkey[1]
             gexprs.append("%s(%s)" % (f, c)); gout.append("f%d" % j)
             gmap.append([[s, s.upper() if f == "upper" else s.lower()] for s in ["a", "b", "Ab", "aB", "AB", "ab", "B", "A"]])
+        elif j in aliases:        # a bare grouping column reported under an AS alias
+            gexprs.append(c); gout.append("r%d" % j); gmap.append([])
         else:
             gexprs.append(c); gout.append(c); gmap.append([])
     sel_keys = ", ".join(("%s AS %s" % (e, o)) if e != o else e for e, o in zip(gexprs, gout))
@@ -84,7 +86,10 @@ def run(tier):
         carrier = rng.choice(["tumbling", "tumbling", "counting", "global"] if ncol > 0 else ["tumbling", "counting"])
         if carrier == "global":       # more repeats of the same tuples, so that groups fire
             tuples = tuples + [rng.choice(tuples) for _ in range(rng.choice([3, 5]))]
-        scen.append(mk(cols, tuples, carrier, 2, None, rng))
+        if ncol >= 2 and rng.random() < 0.15:     # two grouping columns whose names differ in letter case only are two columns
+            cols = ["k1", "K1"] + cols[2:]
+        aliases = tuple(j for j in range(ncol) if rng.random() < 0.25)
+        scen.append(mk(cols, tuples, carrier, 2, None, rng, aliases))
     # scalar-function keys
     for _ in range(120 if quick else 3000):
         ncol = rng.choice([1, 2, 3])
@@ -101,7 +106,7 @@ def run(tier):
     seqfam.run_scenarios(res, scen, "TraceBatch", tag="groupby", relayout_p=0.3, retype_p=0.3, rename_p=0.3)
     res.cov["exhaustive"] = False
     res.cov["distinct_nontrivial"] = len({json.dumps(s["rows"], sort_keys=True) + s["sql"] for s in scen})
-    res.cov["rule"] = ("all batches of <= 3 rows over three 5-value alphabets for one grouping column (exhaustive) plus seeded batches over 0-3 grouping columns "
+    res.cov["rule"] = ("all batches of <= 3 rows over three 5-value alphabets for one grouping column (exhaustive) plus seeded batches over 0-3 grouping columns (some reported under AS aliases, some named alike up to letter case) "
                        "(strings with separator-like characters, the aggregator's NULL marker text, NULL, missing, numbers incl. > 2^53) through a tumbling window (several groups per batch) "
                        "and CountingWindow(2); scalar-function keys upper()/lower() in every position of the GROUP BY list; distinct = distinct (SQL, rows)")
     res.assumptions = ASSUME
